@@ -1,6 +1,6 @@
 (** C20: run of the model and the property as an executable oracle over observed results. The
-    oracle keeps its own tracker (who waits on which descriptor, as the history and the observed
-    results tell it) and never looks at the model. *)
+    oracle keeps its own tracker (who waits for which direction of which descriptor, as the history
+    and the observed results tell it) and never looks at the model. *)
 From OCV Require Import Base.Prelude Net.Selector Net.Token.
 Open Scope Z_scope.
 
@@ -8,37 +8,50 @@ Definition run_C20 (nfd : Z) (ops : list op) : list obs := fst (run_from (loop_i
 Definition tags_C20 (nfd : Z) (ops : list op) : list ctag * list tag :=
   let l := snd (run_from (loop_init nfd) ops) in (l_ctags l, s_tags (l_sel l)).
 
-Definition opt_eqb (a b : option Z) : bool := option_eqb Z.eqb a b.
+Definition k_eqb (a b : bool * bool * Z) : bool :=
+  let '(r1, w1, t1) := a in let '(r2, w2, t2) := b in Bool.eqb r1 r2 && Bool.eqb w1 w2 && (t1 =? t2).
+Definition kview_eqb (a b : kview) : bool := option_eqb k_eqb a b.
 
 Definition obs_eqb (a b : obs) : bool :=
   match a, b with
-  | OReg o1 d1, OReg o2 d2 => Bool.eqb o1 o2 && opt_eqb d1 d2
-  | ORegT o1 d1 t1, ORegT o2 d2 t2 => Bool.eqb o1 o2 && opt_eqb d1 d2 && Bool.eqb t1 t2
+  | OReg o1 d1, OReg o2 d2 => Bool.eqb o1 o2 && kview_eqb d1 d2
+  | ORegT o1 d1 t1, ORegT o2 d2 t2 => Bool.eqb o1 o2 && kview_eqb d1 d2 && Bool.eqb t1 t2
   | OBusy, OBusy => true
   | OEvent t1 h1 w1, OEvent t2 h2 w2 => (t1 =? t2) && Bool.eqb h1 h2 && list_eqb Z.eqb w1 w2
   | ONoEvent, ONoEvent => true
-  | ODel o1, ODel o2 => Bool.eqb o1 o2
+  | ODel o1 d1, ODel o2 d2 => Bool.eqb o1 o2 && kview_eqb d1 d2
+  | OClose o1, OClose o2 => Bool.eqb o1 o2
+  | OReopen, OReopen => true
   | OOther, OOther => true
   | _, _ => false
   end.
 
-(** one step of the property. Tracker [t]: (coroutine, descriptor) for every wait that began and has
-    not been ended by a wake-up; a wait whose descriptor was deleted is kept with [VOID].
-    - readiness of [fd] must resume, on that event, exactly the coroutines waiting on [fd];
+(** one step of the property. Tracker [t]: (coroutine, (descriptor, direction)) for every wait that
+    began and has not been ended by a wake-up; a wait whose interest was deleted, or whose descriptor
+    was closed, is kept with [VOID].
+    - readiness of [fd] in direction [d] must resume, on that event, exactly the coroutines waiting
+      for direction [d] of [fd]: nobody waiting for another descriptor, nobody waiting for the other
+      direction;
+    - when the OS has nothing to deliver for ([fd], [d]), nobody may be waiting for it (such a
+      waiter would be resumed by its wait timeout only);
     - a coroutine that the specification says is free must not be found still suspended. *)
-Definition ok_step (t : list (Z * Z)) (o : op) (r : obs) : bool * list (Z * Z) :=
+Definition ok_step (t : list (Z * want)) (o : op) (r : obs) : bool * list (Z * want) :=
   match o, r with
-  | Wait c fd, OReg true _ => (true, aset c fd t)
-  | Wait c fd, OReg false _ => (true, t)
-  | WaitT c fd, ORegT _ _ _ => (true, t)
-  | Ready fd, OEvent _ _ woken =>
-      (same_set (waiters_on fd t) woken, fold_left (fun t c => arem c t) woken t)
-  | Ready fd, ONoEvent => (match waiters_on fd t with [] => true | _ => false end, t)
-  | Del fd, ODel _ => (true, void_fd fd t)
+  | Wait d c fd, OReg true _ => (true, aset c (fd, d) t)
+  | Wait d c fd, OReg false _ => (true, t)
+  | WaitT d c fd, ORegT _ _ _ => (true, t)
+  | Wait _ c _, OBusy | WaitT _ c _, OBusy => (match aget c t with Some _ => true | None => false end, t)
+  | Ready d fd, OEvent _ _ woken =>
+      (same_set (waiters_on fd d t) woken, fold_left (fun t c => arem c t) woken t)
+  | Ready d fd, ONoEvent => (is_nil (waiters_on fd d t), t)
+  | Del fd, ODel _ _ => (true, void_fd fd t)
+  | DelDir d fd, ODel _ _ => (true, void_dir fd d t)
+  | Close fd, OClose _ => (true, void_fd fd t)
+  | Reopen fd, OReopen => (true, t)
   | _, _ => (false, t)
   end.
 
-Fixpoint ok_from (t : list (Z * Z)) (ops : list op) (rs : list obs) : bool :=
+Fixpoint ok_from (t : list (Z * want)) (ops : list op) (rs : list obs) : bool :=
   match ops, rs with
   | [], [] => true
   | o :: ops', r :: rs' => let '(b, t1) := ok_step t o r in b && ok_from t1 ops' rs'
@@ -47,26 +60,31 @@ Fixpoint ok_from (t : list (Z * Z)) (ops : list op) (rs : list obs) : bool :=
 
 Definition ok_C20 (ops : list op) (rs : list obs) : bool := ok_from [] ops rs.
 
-(** well-formed histories: ids are 64-bit, descriptors are among the [nfd] open ones, and a
-    coroutine starts a wait only when, by the specification, it is not already waiting
-    (it is after [Wait c fd] until [Ready fd]; for ever if the descriptor's interest is deleted
-    under it). This is a function of the history alone. *)
-Definition spec_step (t : list (Z * Z)) (o : op) : list (Z * Z) :=
+(** the specification's view of who waits, a function of the history alone: a coroutine waits after
+    [Wait d c fd] until [Ready d fd]; for ever if the interest is deleted or the descriptor closed
+    under it *)
+Definition spec_step (t : list (Z * want)) (o : op) : list (Z * want) :=
   match o with
-  | Wait c fd => aset c fd t
-  | WaitT _ _ => t
-  | Ready fd => fold_left (fun t c => arem c t) (waiters_on fd t) t
-  | Del fd => void_fd fd t
+  | Wait d c fd => aset c (fd, d) t
+  | WaitT _ _ _ => t
+  | Ready d fd => fold_left (fun t c => arem c t) (waiters_on fd d t) t
+  | Del fd | Close fd => void_fd fd t
+  | DelDir d fd => void_dir fd d t
+  | Reopen _ => t
   end.
 
-Definition wf_op (nfd : Z) (t : list (Z * Z)) (o : op) : bool :=
+(** well-formed histories: ids are 64-bit, descriptors are among the slots [1 .. nfd-1], and a
+    coroutine starts a wait only when, by the specification, it is not already waiting. Descriptor 0
+    exists (it is open) but is never a slot: it is the descriptor the runtime falls back to when an
+    event's token is unknown to [TOKEN_FD]. *)
+Definition wf_op (nfd : Z) (t : list (Z * want)) (o : op) : bool :=
   match o with
-  | Wait c fd | WaitT c fd =>
-      in_u64 c && (0 <=? fd) && (fd <? nfd) && match aget c t with None => true | Some _ => false end
-  | Ready fd | Del fd => (0 <=? fd) && (fd <? nfd)
+  | Wait _ c fd | WaitT _ c fd =>
+      in_u64 c && (1 <=? fd) && (fd <? nfd) && match aget c t with None => true | Some _ => false end
+  | Ready _ fd | Del fd | DelDir _ fd | Close fd | Reopen fd => (1 <=? fd) && (fd <? nfd)
   end.
 
-Fixpoint wf_from (nfd : Z) (t : list (Z * Z)) (ops : list op) : bool :=
+Fixpoint wf_from (nfd : Z) (t : list (Z * want)) (ops : list op) : bool :=
   match ops with
   | [] => true
   | o :: ops' => wf_op nfd t o && wf_from nfd (spec_step t o) ops'
@@ -74,25 +92,54 @@ Fixpoint wf_from (nfd : Z) (t : list (Z * Z)) (ops : list op) : bool :=
 
 Definition wf_C20 (nfd : Z) (ops : list op) : bool := (0 <=? nfd) && wf_from nfd [] ops.
 
-(** Histories outside the recorded finding [registration_outlives_wait]: between two deletions a
-    descriptor is used by one coroutine identity and a coroutine identity uses one descriptor. *)
+(** Histories outside the recorded findings [registration_outlives_wait] and
+    [one_token_per_descriptor], again a function of the history alone. Between two deletions of a
+    descriptor's whole registration (by [Del], [Close], or [DelDir] of its only registered direction)
+    - the descriptor is used by one coroutine identity and that coroutine uses only this descriptor
+      ([n_bind], both directions together);
+    - readiness of one direction does not arrive while a coroutine waits for the other direction;
+    - one direction is deleted on its own only when the other one is not registered
+      ([n_r] / [n_w]: descriptors with a wait for readability / writability since the last deletion);
+    - waits name open descriptors ([n_closed]). *)
+Record nd := { n_bind : list (Z * Z); n_r : list Z; n_w : list Z; n_closed : list Z }.
+
+Definition nd_init : nd := {| n_bind := []; n_r := []; n_w := []; n_closed := [] |}.
+
 Definition bound_ok (b : list (Z * Z)) (c fd : Z) : bool :=
   match aget c b with
   | Some f => f =? fd
   | None => negb (existsb (fun p => snd p =? fd) b)
   end.
 
-Definition pair_step (b : list (Z * Z)) (o : op) : bool * list (Z * Z) :=
+Definition unbind (fd : Z) (b : list (Z * Z)) : list (Z * Z) := filter (fun p => negb (snd p =? fd)) b.
+
+Definition nd_forget (n : nd) (fd : Z) (closed : list Z) : nd :=
+  {| n_bind := unbind fd (n_bind n); n_r := zrem fd (n_r n); n_w := zrem fd (n_w n); n_closed := closed |}.
+
+Definition nd_step (t : list (Z * want)) (n : nd) (o : op) : bool * nd :=
   match o with
-  | Wait c fd | WaitT c fd => (bound_ok b c fd, aset c fd b)
-  | Ready _ => (true, b)
-  | Del fd => (true, filter (fun p => negb (snd p =? fd)) b)
+  | Wait d c fd | WaitT d c fd =>
+      (bound_ok (n_bind n) c fd && negb (zmem fd (n_closed n)),
+       {| n_bind := aset c fd (n_bind n);
+          n_r := if d then n_r n else zadd fd (n_r n);
+          n_w := if d then zadd fd (n_w n) else n_w n;
+          n_closed := n_closed n |})
+  | Ready d fd => (is_nil (waiters_on fd (negb d) t), n)
+  | Del fd => (true, nd_forget n fd (n_closed n))
+  | DelDir d fd => (negb (zmem fd (if d then n_r n else n_w n)), nd_forget n fd (n_closed n))
+  | Close fd => (true, nd_forget n fd (zadd fd (n_closed n)))
+  | Reopen fd =>
+      (true, {| n_bind := n_bind n; n_r := n_r n; n_w := n_w n; n_closed := zrem fd (n_closed n) |})
   end.
 
-Fixpoint paired_from (b : list (Z * Z)) (ops : list op) : bool :=
+Fixpoint nd_from (t : list (Z * want)) (n : nd) (ops : list op) : bool :=
   match ops with
   | [] => true
-  | o :: ops' => let '(ok, b1) := pair_step b o in ok && paired_from b1 ops'
+  | o :: ops' => let '(ok, n1) := nd_step t n o in ok && nd_from (spec_step t o) n1 ops'
   end.
 
-Definition paired (ops : list op) : bool := paired_from [] ops.
+Definition no_defect (ops : list op) : bool := nd_from [] nd_init ops.
+
+(** the coroutine identity [c] does not occur in the history *)
+Definition fresh (c : Z) (ops : list op) : bool :=
+  forallb (fun o => match o with Wait _ c' _ | WaitT _ c' _ => negb (c' =? c) | _ => true end) ops.
